@@ -1606,6 +1606,13 @@ pub mod verif {
             }
         }
 
+        /// New tokeniser in the initial state sharing the compiled automata
+        pub fn fresh(&self) -> Self {
+            Self {
+                matcher: MatcherDecoder::new(self.matcher.automata.clone()),
+            }
+        }
+
         /// Decode single token: `Ok(pattern index)` or `Err(rejected bytes)`
         pub fn decode<B: BufRead>(&mut self, buf: B) -> Result<Option<Result<usize, Vec<u8>>>, Error> {
             Ok(self
